@@ -83,6 +83,12 @@ func panicErrFor(n int) error { return fmt.Errorf("PE%d-harness: %w", n, errSent
 
 type statuser interface{ Status() string }
 
+// harnessPanic is a panic value that is neither a string nor an error.
+type harnessPanic struct {
+	Code int
+	Msg  string
+}
+
 // wf is the worker function body shared by all worker kinds.
 func (e *Env) wf(widx int, j varmq.Job[Payload]) (int, error) {
 	p := j.Data()
@@ -127,6 +133,8 @@ func (e *Env) wf(widx int, j varmq.Job[Payload]) (int, error) {
 		panic(panicStrFor(n))
 	case OutPanicErr:
 		panic(panicErrFor(n))
+	case OutPanicStruct:
+		panic(harnessPanic{Code: n, Msg: panicStrFor(n)})
 	case OutPanicNil:
 		var pp *Payload
 		_ = pp.N // nil dereference
